@@ -64,6 +64,18 @@ impl<B: StarkField, H: ElementHasher<BaseField = B>> RandomCoin for ScriptedCoin
 }
 
 static TAP: Mutex<Vec<Vec<u8>>> = Mutex::new(Vec::new());
+/// abstract coin events of TapCoin instances: ("new", ""), ("reseed", hex digest), ("draw", ""), ("ints", "")
+static EVENTS: Mutex<Vec<(String, String)>> = Mutex::new(Vec::new());
+
+pub fn events_take() -> Vec<(String, String)> {
+    std::mem::take(&mut *EVENTS.lock().unwrap_or_else(|e| e.into_inner()))
+}
+fn event(e: &str, d: String) {
+    EVENTS.lock().unwrap_or_else(|e| e.into_inner()).push((e.to_string(), d));
+}
+fn hex(b: &[u8]) -> String {
+    b.iter().map(|x| format!("{x:02x}")).collect()
+}
 
 pub fn tap_clear() {
     TAP.lock().unwrap_or_else(|e| e.into_inner()).clear();
@@ -79,20 +91,24 @@ impl<B: StarkField, H: ElementHasher<BaseField = B>> RandomCoin for TapCoin<H> {
     type Hasher = H;
 
     fn new(seed: &[B]) -> Self {
+        event("new", String::new());
         TapCoin(DefaultRandomCoin::new(seed))
     }
     fn reseed(&mut self, data: <H as Hasher>::Digest) {
+        event("reseed", hex(&data.to_bytes()));
         self.0.reseed(data)
     }
     fn check_leading_zeros(&self, value: u64) -> u32 {
         self.0.check_leading_zeros(value)
     }
     fn draw<E: FieldElement<BaseField = B>>(&mut self) -> Result<E, RandomCoinError> {
+        event("draw", String::new());
         let r = self.0.draw::<E>()?;
         TAP.lock().unwrap_or_else(|e| e.into_inner()).push(r.to_bytes());
         Ok(r)
     }
     fn draw_integers(&mut self, num_values: usize, domain_size: usize, nonce: u64) -> Result<Vec<usize>, RandomCoinError> {
+        event("ints", String::new());
         self.0.draw_integers(num_values, domain_size, nonce)
     }
 }
